@@ -118,6 +118,7 @@ typedef struct hx_txrec {
     hx_buf dumpz;              /* tx dump taken at TRANSACTION_COMPLETE                          */
     int64_t filelen;           /* bytes seen by FILE_DATA callbacks                              */
     hx_buf files;              /* FILE_DATA bytes                                                */
+    hx_buf raw[2];             /* raw header+trailer block bytes handed to *_HEADER_DATA / *_TRAILER_DATA */
 } hx_txrec;
 
 typedef struct hx_call { uint8_t fn; uint8_t gap; uint32_t len; int rc; uint32_t consumed; uint32_t ncb_after; } hx_call;
